@@ -1878,7 +1878,11 @@ bool Node::perform_handshake(const PeerId& peer_id,
     const auto existing = handshake_state_.find(key);
     if (existing != handshake_state_.end()) {
         const auto elapsed = now - existing->second.last_attempt;
-        if (existing->second.success && elapsed < config_.handshake_cooldown) {
+        // The cooldown only spares re-validating the very same offer; a different key or
+        // nonce for the same claimed peer must go through full validation.
+        if (existing->second.success && elapsed < config_.handshake_cooldown
+            && existing->second.remote_public == remote_public_key
+            && existing->second.remote_pow_nonce == remote_work_nonce) {
             return true;
         }
     }
